@@ -129,6 +129,8 @@ def build_template(path, B="self.b", frag_rx=None, lets_extra=None):
             c = ev.a
             if c.startswith("%s.add(" % B) and c.endswith(")"):
                 inner = c[len(B) + 5:-1]
+                if inner in env and isinstance(env[inner], str) and INSN_RX.match(env[inner]):
+                    inner = env[inner]         # the instruction was bound to a local first (possibly chosen by an `if`)
                 if inner in env and isinstance(env[inner], tuple):
                     name, ops = env[inner]
                 else:
